@@ -762,7 +762,7 @@ def _sexp_plain(ctx, t):
     def m(r, f):
         return f if r is None else r * f
     if c0 != 0:
-        e = ctx.EXP(z3.RealVal(str(c0)))
+        e = _exp_atom(ctx, z3.RealVal(str(c0)))
         lo, hi = _encl("exp", c0)
         ctx.facts += [e > lo, e < hi]
         res = m(res, e)
@@ -808,10 +808,14 @@ def _slog_plain(ctx, u):
         ctx.keep.append(l)
         return l, True
     u = toreal(u)
-    if u.decl().kind() == z3.Z3_OP_ITE:
-        c, a, b = u.children()
-        la, da = _slog_plain(ctx, a if znum(a) is None else znum(a))
-        lb, db = _slog_plain(ctx, b if znum(b) is None else znum(b))
+    it = find_ite(u)
+    if it is not None and (u.decl().kind() == z3.Z3_OP_ITE or _small_ite_term(u)):
+        c, a, b = it.children()
+        ua = z3.substitute(u, (it, a))
+        ub = z3.substitute(u, (it, b))
+        ua_s, ub_s = z3.simplify(ua), z3.simplify(ub)
+        la, da = _slog_plain(ctx, ua if znum(ua_s) is None else znum(ua_s))
+        lb, db = _slog_plain(ctx, ub if znum(ub_s) is None else znum(ub_s))
         return z3.If(c, toreal(la), toreal(lb)), bite(c, da, db)
     if u.decl().kind() == z3.Z3_OP_UNINTERPRETED and u.decl().name() == "EXP":
         return u.arg(0), True
@@ -835,6 +839,34 @@ def _slog_plain(ctx, u):
         ctx.keep.append(l)
         ctx.facts += [z3.Implies(u > 0, z3.And((u > 1) == (l > 0), (u == 1) == (l == 0)))]
     return l, pos
+
+
+def _small_ite_term(u, max_ites=3, max_size=80):
+    """few If-nodes and small: lifting the Ifs out of LOG cannot blow up"""
+    seen = set()
+    st = [u]
+    ites = 0
+    while st:
+        e = st.pop()
+        i = e.get_id()
+        if i in seen:
+            continue
+        seen.add(i)
+        if len(seen) > max_size:
+            return False
+        if z3.is_app(e):
+            if e.decl().kind() == z3.Z3_OP_ITE:
+                ites += 1
+                if ites > max_ites:
+                    return False
+            st.extend(e.children())
+    return True
+
+
+def _depth_budget(ctx):
+    """bounds the number of If-liftings through LOG per context (each one duplicates the argument)"""
+    ctx.lifts = getattr(ctx, "lifts", 0) + 1
+    return ctx.lifts <= 8
 
 
 def _split_exp_factors(u):
@@ -1018,18 +1050,19 @@ class Interp:
         self.abstract = {}     # id(z3 term) -> fresh variable (solver-justified cut of an internal quantity)
 
     def _abstract(self, o):
-        hit = False
-        for v in o.ravel():
-            if is_z(v) and v.get_id() in self.abstract:
-                hit = True
-                break
-        if not hit:
+        def key(v):
+            if is_z(v):
+                return v.get_id()
+            if isinstance(v, P) and is_z(v.t):
+                return v.t.get_id()
+            return None
+        if not any(key(v) in self.abstract for v in o.ravel()):
             return o
         o = o.copy()
         for idx in np.ndindex(o.shape):
-            v = o[idx]
-            if is_z(v) and v.get_id() in self.abstract:
-                o[idx] = self.abstract[v.get_id()]
+            k = key(o[idx])
+            if k in self.abstract:
+                o[idx] = self.abstract[k]   # definedness of the abstracted quantity is part of the proved lemma
         return o
 
     def run(self, closed, *args):
@@ -1378,19 +1411,19 @@ class Interp:
 
     # ------------------------------------------------------------------------------
     def _error_if(self, e, ins):
-        # eqx.error_if: jit[name=branched_error_if_impl](x..., pred) ; record pred, return x
-        outs_n = len(e.outvars)
-        pred = ins[-1] if outs_n == len(ins) - 1 else ins[1]
-        msg = ""
-        try:
-            for q in e.params["jaxpr"].jaxpr.eqns:
-                if q.primitive.name == "cond":
-                    msg = "error_if"
-        except Exception:
-            pass
-        self.ctx.errors.append(pred)
-        vals = [x for x in ins if x is not pred]
-        return vals[:outs_n]
+        """eqx.error_if: jit[name=branched_error_if_impl](values..., pred) -> (0, values...); the predicate is recorded"""
+        pred = ins[-1]
+        p = False
+        for v in np.asarray(pred, dtype=object).ravel():
+            p = bor(p, split(v)[0])
+        self.ctx.errors.append(p)
+        vals = list(ins[:-1])
+        n = len(e.outvars)
+        if n == len(vals) + 1:
+            return [oarr(0)] + vals
+        if n == len(vals):
+            return vals
+        raise Unsupported("error_if layout")
 
     def _opaque(self, e, ins):
         """uninterpreted function of the flattened inputs, one fresh UF per (primitive, params, output position)"""
